@@ -6,9 +6,13 @@
   fit and `delete_range` are executable models (PM/Fitter.lean, PM/RangeOps.lean) tied exactly to the
   real code; the later theorems prove the monitor's conjuncts about what the *model* emits
   (`fit_range`, the text invariant, `fitter_respects`, the `delete_range` theorems).
-  Totality ("never raises") is NOT a theorem: the model has fuel and error outcomes, every Fitter
-  theorem assumes the run ends in `.ok`; termination and assertion-freeness of the real loops are
-  decided by search.  Helpers: Proofs/Respects.lean, RangeOps.lean, Fitter.lean, FitterText.lean.
+  (3) Totality of the *model*, last section: the loop of `fit` terminates — the fuel `replaceStep`
+  passes is enough, and `outOfFuel` is answered exactly when the loop reaches the one state it maps
+  to itself (`fitLoop_outOfFuel_exact`, `fitLoop_terminates`, `replaceStep_not_outOfFuel`); the
+  failure classes of `replaceStep` (`replaceStep_failures`).  That the run does not *raise* is proved
+  only in part (see that section); every other Fitter theorem assumes the run ends in `.ok`.
+  Helpers: Proofs/Respects.lean, RangeOps.lean, Fitter.lean, FitterText.lean, FitRaises.lean,
+  FitMeasure.lean, FitScan.lean, FitTerm.lean, FitLoop.lean, FitTotal.lean, FillOrder.lean.
 -/
 import PM.Monitor
 import Proofs.StepToks
@@ -17,6 +21,8 @@ import Proofs.Respects
 import Proofs.RangeOps
 import Proofs.Fitter
 import Proofs.FitterText
+import Proofs.FitTotal
+import Proofs.Placement
 import Props.C01
 namespace PM.C11
 open PM
@@ -418,5 +424,149 @@ theorem deleteRange_fitted_text (S : Schema) (doc doc' : Node) (f t F T : Nat) (
       textUnits ((ftoks doc.kids).take f) ++ textUnits ((ftoks doc.kids).drop t) :=
   respects_delete_text S doc doc' f t F T sl' b
     (deleteRange_fitted_respects S doc f t _ hft h (fun _ _ _ _ _ _ _ he => by cases he)) ha
+
+/-! ## Totality of the fitting loop (theorems about the executable model)
+
+`fitLoop` is the loop `while self.unplaced.size: …` of `Fitter.fit` with a fuel argument.  The
+measure (PM/Fitter.lean `fitMeasure`) is lexicographic in
+(number of nodes of the unplaced content, `bound - open_start` where `bound` is the height of the
+content, number of slice levels — from `open_start` downwards — whose first node the top of the
+frontier does not accept): `place_nodes` removes a node, or (a wrapper hit of pass 2 whose first node
+the frontier item does not take after the wrapper was opened) lowers the third component;
+`open_more` raises `open_start`; `drop_node` removes a node.  The only state on which the body makes
+no progress is: nothing left, `open_start = 0`, `open_end > 0` — `Slice.size` is then negative, which
+Python's `while` treats as true, and the body leaves the state as it is.  That state is reached on
+slices that put a non-leaf node in front of a text node at the top level (an *inline* node with
+content next to text; random schemas only — finding `C11` "non-termination"): the model diverges
+there exactly like the code (`fitLoop_diverges_example`).
+
+All statements are about the model; the exact tie (harness/rangeplan.py `tie_replace_step`) carries
+them to the code on the sampled inputs. -/
+
+/-- the content automata of the schema are deterministic — decidable, evaluated by the driver -/
+abbrev detB := PM.FromDom.detB
+
+theorem detS_of_detB (S : Schema) (h : detB S = true) : DetS S := PM.FromDom.det_of_detB S h
+
+/-- **every iteration makes progress** while there is unplaced content: the measure decreases -/
+theorem fitStep_decreases (S : Schema) (hdet : detB S = true) (st st' : FitState)
+    (hne : st.unplaced.content ≠ []) (h : fitStep S st = .ok st') :
+    fitMeasure st'.unplaced (cpot S st') < fitMeasure st.unplaced (cpot S st) :=
+  fitStep_progress S (detS_of_detB S hdet) st st' hne h
+
+/-- **the one cycle of the loop**: with nothing left to place, `open_start = 0` and `open_end ≠ 0`
+    the body maps the state to itself (and `size = -open_end ≠ 0` keeps the loop going) -/
+theorem fitStep_cycle (S : Schema) (st : FitState) (h : st.stuck) :
+    fitStep S st = .ok st ∧ (st.unplaced.size == 0) = false ∧ ∀ fuel, fitLoop S fuel st = .error .outOfFuel :=
+  ⟨fitStep_stuck S st h, stuck_size st h, fitLoop_stuck S st h⟩
+
+/-- **`fitLoop_outOfFuel_exact`** — the fuel is enough in the exact sense: for every fuel above
+    the measure of the state (in particular the fuel `replaceStep` passes, `fitFuel_suffices`), the
+    loop answers `outOfFuel` iff it reaches the cycle, iff it answers `outOfFuel` for *every* fuel.
+    No hypothesis on the slice or the frontier. -/
+theorem fitLoop_outOfFuel_exact (S : Schema) (hdet : detB S = true) (fuel : Nat) (st : FitState)
+    (hfuel : fitMeasure st.unplaced (cpot S st) < fuel) :
+    (fitLoop S fuel st = .error .outOfFuel ↔ ∃ st', FitReach S st st' ∧ st'.stuck) ∧
+    (fitLoop S fuel st = .error .outOfFuel ↔ ∀ fuel', fitLoop S fuel' st = .error .outOfFuel) :=
+  fitLoop_outOfFuel_iff S (detS_of_detB S hdet) fuel st hfuel
+
+/-- the fuel `replaceStep` passes depends on the slice only and is above the measure of the state
+    `Fitter.__init__` builds -/
+theorem fitFuel_suffices (S : Schema) (st : FitState) :
+    fitMeasure st.unplaced (cpot S st) < fitFuel S st.unplaced := fitFuel_enough S st
+
+/-- the invariant behind `fitLoop_terminates`: established by the guard, kept by every iteration,
+    and it excludes the cycle -/
+theorem termInv_invariant (S : Schema) :
+    (∀ u : Slice, u.termGuard = true → TermInv u) ∧
+    (∀ st st', TermInv st.unplaced → fitStep S st = .ok st' → TermInv st'.unplaced) ∧
+    (∀ st : FitState, TermInv st.unplaced → ¬ st.stuck) :=
+  ⟨fun _ h => TermInv.of_guard h, fun st st' => fitStep_termInv S st st', fun _ h => h.not_stuck⟩
+
+/-- **`fitLoop_terminates`** — for a slice whose top-level content ends in a non-leaf node, or
+    consists of leaf / text nodes only and is closed (`Slice.termGuard`, decidable), the loop does not
+    run out of the fuel `fitFuel`, nor of any fuel above the measure.  (Other slices: see
+    `fitLoop_outOfFuel_exact` — the answer `outOfFuel` is then a proof of divergence, not an
+    artefact of the fuel.) -/
+theorem fitLoop_terminates (S : Schema) (hdet : detB S = true) (st : FitState)
+    (hg : st.unplaced.termGuard = true) (fuel : Nat) (hfuel : fitMeasure st.unplaced (cpot S st) < fuel) :
+    fitLoop S fuel st ≠ .error .outOfFuel :=
+  PM.fitLoop_terminates S (detS_of_detB S hdet) st hg fuel hfuel
+
+/-- **the failure classes of `replace_step`**: it raises; or the loop of `fit` does not end; or the
+    replace-around step would need a negative `insert` -/
+theorem replaceStep_failures (S : Schema) (doc : Node) (f t : Nat) (sl : Slice) (e : FitErr)
+    (h : replaceStep S doc f t sl = .error e) :
+    e = .raises ∨
+    (e = .outOfFuel ∧ ∃ rf st0, doc.resolve f = some rf ∧ fitInit S rf sl = .ok st0 ∧
+      fitLoop S (fitFuel S sl) st0 = .error .outOfFuel) ∨
+    (e = .negInsert ∧ ∃ rf st0 st, doc.resolve f = some rf ∧ fitInit S rf sl = .ok st0 ∧
+      fitLoop S (fitFuel S sl) st0 = .ok st ∧
+      (fsize st.placed : Int) - (st.frontier.length - 1 : Nat) - rf.depth < 0) :=
+  replaceStep_err S doc f t sl e h
+
+/-- **`replace_step` answers `outOfFuel` only when the loop of `fit` reaches its cycle** -/
+theorem replaceStep_outOfFuel_cycle (S : Schema) (hdet : detB S = true) (doc : Node) (f t : Nat) (sl : Slice)
+    (h : replaceStep S doc f t sl = .error .outOfFuel) :
+    ∃ rf st0 st', doc.resolve f = some rf ∧ fitInit S rf sl = .ok st0 ∧ FitReach S st0 st' ∧ st'.stuck :=
+  replaceStep_outOfFuel_stuck S (detS_of_detB S hdet) doc f t sl h
+
+/-- … and never for a slice that satisfies the guard -/
+theorem replaceStep_not_outOfFuel (S : Schema) (hdet : detB S = true) (doc : Node) (f t : Nat) (sl : Slice)
+    (hg : sl.termGuard = true) : replaceStep S doc f t sl ≠ .error .outOfFuel :=
+  PM.replaceStep_not_outOfFuel S (detS_of_detB S hdet) doc f t sl hg
+
+/-- **the divergence, exhibited** (`fitLoop_diverges_example`): schema `doc: "hr | p"`, `p: "inline*"`,
+    inline node `il: "text*"`; the slice `<il("x"), "ab">(0,0)` — the content of the paragraph of the
+    valid document `doc(p(il("x"), "ab"))` — inserted at position 1 of `doc(hr)`, where nothing of
+    it fits.  `open_more` opens `il` and sets `open_end = 1`; `"x"`/`il` and then `"ab"` are dropped;
+    the third iteration ends in `<>(0,1)` with `size = -1`: the cycle.  So `replaceStep` answers
+    `outOfFuel` (by `fitLoop_outOfFuel_exact`: for every fuel), the guard is false, and the real
+    `replace_step` does not return on this input (checked on /repo; upstream has the same loop). -/
+example :
+    let nt (name : String) (isText inl leaf inlc : Bool) (dfa : Array DfaState) : NodeType :=
+      { name := name, isText := isText, isInline := inl, isLeaf := leaf, isAtom := leaf,
+        inlineContent := inlc, isolating := false, defining := false, code := false,
+        dfa := dfa, markSet := none, attrs := [] }
+    let S : Schema := { nodes := #[nt "doc" false false false false #[⟨false, [(1, 1), (4, 1)]⟩, ⟨true, []⟩],
+                                   nt "hr" false false true false #[⟨true, []⟩],
+                                   nt "il" false true false true #[⟨true, [(3, 0)]⟩],
+                                   nt "text" true true true false #[⟨true, []⟩],
+                                   nt "p" false false false true #[⟨true, [(2, 0), (3, 0)]⟩]],
+                        marks := #[], top := 0, textTy := 3 }
+    let doc := Node.elem 0 [] [] [.leaf 1 [] []]
+    let sl : Slice := ⟨[.elem 2 [] [] [.text [120] []], .text [97, 98] []], 0, 0⟩
+    detB S = true ∧ sl.wf = true ∧ sl.termGuard = false ∧
+    (match replaceStep S doc 1 1 sl with | .error .outOfFuel => true | _ => false) = true ∧
+    (match doc.resolve 1 with
+     | some rf =>
+       (match (do let s0 ← fitInit S rf sl; let s1 ← fitStep S s0; let s2 ← fitStep S s1; fitStep S s2) with
+        | .ok s3 => decide s3.stuck && s3.unplaced == ⟨[], 0, 1⟩ &&
+            (match fitStep S s3 with | .ok s4 => s4.unplaced == s3.unplaced | _ => false)
+        | _ => false)
+     | none => false) = true := by decide +kernel
+
+/-! ### the fuelled searches the Fitter calls (PM/FillOrder.lean) -/
+
+/-- **`fill_before`'s fuel is enough**: `none` means that no filling exists (`isFill` is false for
+    every candidate), and an answer is a filling -/
+theorem fillBeforeTypes_exact (S : Schema) (d : Dfa) (hdet : ∀ q, ((d.edgesOf q).map (·.1)).Nodup)
+    (hd : ∀ q t q', (t, q') ∈ d.edgesOf q → q' < d.size) (q : Nat) (after : List TypeId) (toEnd : Bool) :
+    (∀ tys, fillBeforeTypes S d q after toEnd = some tys → isFill d S.generatable q after toEnd tys = true) ∧
+    (fillBeforeTypes S d q after toEnd = none → ∀ fill, isFill d S.generatable q after toEnd fill = false) := by
+  refine ⟨fun tys h => ?_, fun h fill => fillBeforeTypes_complete S d hd q after toEnd h fill⟩
+  rw [fillBeforeTypes_eq] at h
+  exact fillBefore_sound_aux d S.generatable q after toEnd hdet tys h
+
+/-- **`find_wrapping`'s fuel is enough**: `none` means that no position reachable through wrapper
+    nodes accepts the target; an answer is `[]` exactly when the target matches right here, and
+    otherwise its innermost wrapper accepts the target as first child -/
+theorem findWrappingTypes_exact (S : Schema) (d : Dfa) (q : Nat) (target : TypeId)
+    (hwf : ∀ x t s, (t, s) ∈ (wDfa S d x).edgesOf (wState q x) → t < S.nodes.size) :
+    (findWrappingTypes S d q target = none → ∀ x m, WReach S d q x m → ¬ WGoal S d q target x) ∧
+    (∀ w, findWrappingTypes S d q target = some w →
+      (w = [] ∧ (d.matchType q target).isSome = true) ∨
+      (∃ t c, w = c ++ [t] ∧ ((S.dfa t).matchType 0 target).isSome = true)) :=
+  ⟨findWrappingTypes_complete S d q target hwf, fun w h => findWrappingTypes_spec S d q target w h⟩
 
 end PM.C11
